@@ -37,6 +37,49 @@ var scalarTypes = map[string]descriptorpb.FieldDescriptorProto_Type{
 var Scalars = []string{"string", "int32", "int64", "uint32", "uint64", "sint32", "sint64", "fixed32", "fixed64",
 	"sfixed32", "sfixed64", "bool", "float", "double", "bytes"}
 
+// FieldJSONName is the JSON name of a field: its json_name option or protoc's default.
+func FieldJSONName(f *Field) string { return jsonNameOf(f) }
+
+// RequestFieldJSONName looks up the JSON name of field `name` of the request message of svc.rpc (top-level messages of the
+// spec's files); falls back to protoc's default conversion of the name.
+func RequestFieldJSONName(s *Spec, svc, rpc, name string) string {
+	for _, f := range s.Files {
+		for _, sv := range f.Services {
+			if sv.Name != svc {
+				continue
+			}
+			for _, m := range sv.Methods {
+				if m.Name != rpc {
+					continue
+				}
+				in := m.In
+				if i := strings.LastIndex(in, "."); i >= 0 {
+					in = in[i+1:]
+				}
+				for _, f2 := range s.Files {
+					for _, msg := range f2.Messages {
+						if msg.Name == in {
+							for _, fl := range msg.Fields {
+								if fl.Name == name {
+									return jsonNameOf(fl)
+								}
+							}
+						}
+					}
+				}
+			}
+		}
+	}
+	return JSONName(name)
+}
+
+func jsonNameOf(f *Field) string {
+	if f.JSONName != "" {
+		return f.JSONName
+	}
+	return JSONName(f.Name)
+}
+
 // JSONName is protoc's ToJsonName.
 func JSONName(s string) string {
 	var b strings.Builder
@@ -133,7 +176,7 @@ func (l *lowerer) field(f *Field, idx int, m *Message, md *descriptorpb.Descript
 	fd := &descriptorpb.FieldDescriptorProto{
 		Name: proto.String(f.Name), Number: proto.Int32(num), Type: typ.Enum(),
 		Label:    descriptorpb.FieldDescriptorProto_LABEL_OPTIONAL.Enum(),
-		JsonName: proto.String(JSONName(f.Name)),
+		JsonName: proto.String(jsonNameOf(f)),
 	}
 	if f.Kind == "message" || f.Kind == "enum" {
 		fd.TypeName = proto.String(l.fq(f.Type))
